@@ -3,6 +3,8 @@ import TsVerif.C03.Driver
 import TsVerif.C03.Glr
 import TsVerif.C03.Sound
 import TsVerif.C03.Relate
+import TsVerif.C03.Complete
+import TsVerif.C03.Cover
 import TsVerif.C03.Lang
 import TsVerif.C03.Pratt
 /-!
